@@ -3,14 +3,23 @@ import Hive.Conc.Sys
 /-!
 # Protocol model of `Listener.Wait` racing `Deregister`, `Notify` and context cancellation (C15)
 
-One listener `L` of one notifier entry (one generation of listeners of one value); `others` further
-live listeners share the entry.  Critical sections under the notifier mutex (`Notify`,
-`removeListener`) are single steps; `Listener.Deregister` is three steps (atomic `Swap`, closing the
-deregistered channel, `removeListener`); `Wait` loads the flag, then `select`s among the channels
-that are ready (nondeterministically when several are), and — in the repaired code
-(`fixed = true`) — re-checks the flag when the notify channel was chosen.  Any number of concurrent
-`Wait` / `Deregister` callers for `L`, deregistrations of the other listeners, `Notify` callers and
-a context cancellation may run.
+One listener `L` of one notifier entry (one generation of listeners of one value) and any number of
+other live listeners that share the entry.  The entry carries the code's reference count `count`
+(`listener.count`); **every** listener has its own `deregistered` flag.  Critical sections under the
+notifier mutex (`Notify`, `removeListener`) are single steps.  `Listener.Deregister` — of `L` and of
+every other listener alike — is three steps: the atomic `Swap(true)` (test-and-set: the caller that
+finds `false` goes on, everybody else returns), closing the deregistered channel, and
+`removeListener`, which decrements the count *unconditionally* (it has no idea who calls it) and
+closes the notify channel when the count reaches 0.  That two overlapping `Deregister` calls of one
+listener decrement only once is therefore a *consequence* of the atomic swap (counting invariant in
+`Proofs/EventsNotifierRace.lean`), not an assumption of the model: the program counters
+`sload … sclose` are the variant "check with `Load`, remove, then `Swap`" whose check and removal are
+separate steps — `C15_notifier_double_deregister_witness` shows that it breaks the property.
+
+`Wait` loads the flag, then `select`s among the channels that are ready (nondeterministically when
+several are), and — in the repaired code (`fixed = true`) — re-checks the flag when the notify
+channel was chosen.  Any number of concurrent `Wait` / `Deregister` callers for `L`, `Deregister`
+callers of the other listeners, `Notify` callers and a context cancellation may run.
 
 Ghost: `inWindow` is set when a `Notify` closes the channel while `L`'s deregistered flag is still
 false, i.e. Notify happened after the listener was created and before it was deregistered.
@@ -23,80 +32,95 @@ inductive Res
 deriving DecidableEq, Repr
 
 structure Sh where
-  flag : Bool        -- L.deregistered
-  dchan : Bool       -- L.deregisteredChan is closed
-  nchan : Bool       -- the entry's notify channel is closed
-  entry : Bool       -- the entry of this generation is still in the notifier's map
-  lcounted : Bool    -- L is still counted in entry.count
-  others : Nat       -- other live listeners counted in entry.count
+  flag : Bool          -- L.deregistered
+  dchan : Bool         -- L.deregisteredChan is closed
+  nchan : Bool         -- the entry's notify channel is closed
+  entry : Bool         -- the entry of this generation is still in the notifier's map
+  count : Nat          -- entry.count, the code's reference count (meaningful while `entry`)
+  oflags : List Bool   -- `deregistered` flags of the other listeners sharing the entry
   ctxDone : Bool
-  inWindow : Bool    -- ghost
+  inWindow : Bool      -- ghost
 deriving DecidableEq, Repr
 
-/-- Program counter inside `Listener.Deregister`. -/
+/-- Program counter inside `Listener.Deregister`.  `swap → close → remove → fin` is the code
+(`if !l.deregistered.Swap(true) { close(l.deregisteredChan); l.deregister() }`);
+`sload → sremove → sswap → sclose → fin` is the variant that checks with a plain `Load`, removes, and
+only then swaps (never started by `Th.initial` threads; used by the witness). -/
 inductive DPc
   | swap | close | remove | fin
+  | sload | sremove | sswap | sclose
 deriving DecidableEq, Repr
 
 inductive Th
   | w0                               -- Wait: about to load `deregistered`
   | w1                               -- Wait: at the `select`
   | w2                               -- Wait: notify channel chosen, about to re-check the flag (repaired code)
-  | dr (r : Option Res) (pc : DPc)   -- Deregister at `pc`; `some r`: it is the deferred call of a Wait that returns `r`
-  | od (done : Bool)                 -- `removeListener` of one of the other listeners
+  | dr (who : Option Nat) (r : Option Res) (pc : DPc)
+      -- Deregister of `L` (`who = none`) or of the other listener `j` (`who = some j`) at `pc`;
+      -- `r = some x`: it is the deferred call of a Wait (of `L`) that returns `x`
   | nt (done : Bool)                 -- `Notify(value)`
   | cx (done : Bool)                 -- cancellation of the waiter's context
 deriving DecidableEq, Repr
 
-/-- `removeListener` for `L` (repaired code: it only ever touches the entry of its own channel). -/
-def removeL (s : Sh) : Sh :=
-  if s.entry && s.lcounted then
-    if s.others == 0 then { s with lcounted := false, entry := false, nchan := true }
-    else { s with lcounted := false }
-  else s
+/-- The `deregistered` flag of a listener (a listener that does not exist counts as deregistered, so
+that a thread for it does nothing). -/
+def getFlag (s : Sh) : Option Nat → Bool
+  | none => s.flag
+  | some j => s.oflags.getD j true
 
-/-- `removeListener` for one of the other listeners. -/
-def removeO (s : Sh) : Sh :=
-  if s.entry && decide (0 < s.others) then
-    if s.others == 1 && !s.lcounted then { s with others := 0, entry := false, nchan := true }
-    else { s with others := s.others - 1 }
+def setFlag (s : Sh) : Option Nat → Sh
+  | none => { s with flag := true }
+  | some j => { s with oflags := s.oflags.set j true }
+
+/-- `Notifier.removeListener` for a channel of this generation — the same code whoever calls it:
+`count--`, and when it reaches 0 the notify channel is closed and the entry deleted. -/
+def remove (s : Sh) : Sh :=
+  if s.entry then
+    if s.count == 1 then { s with count := 0, entry := false, nchan := true }
+    else { s with count := s.count - 1 }
   else s
 
 def notify (s : Sh) : Sh :=
   if s.entry then { s with entry := false, nchan := true, inWindow := s.inWindow || !s.flag } else s
 
-def dstep (s : Sh) : DPc → List (Sh × DPc)
-  | .swap => if s.flag then [(s, .fin)] else [({ s with flag := true }, .close)]
-  | .close => [({ s with dchan := true }, .remove)]
-  | .remove => [(removeL s, .fin)]
+/-- closing the listener's own deregistered channel (only `L`'s is observed) -/
+def closeD (s : Sh) : Option Nat → Sh
+  | none => { s with dchan := true }
+  | some _ => s
+
+def dstep (s : Sh) (who : Option Nat) : DPc → List (Sh × DPc)
+  | .swap => if getFlag s who then [(s, .fin)] else [(setFlag s who, .close)]
+  | .close => [(closeD s who, .remove)]
+  | .remove => [(remove s, .fin)]
   | .fin => []
+  | .sload => if getFlag s who then [(s, .fin)] else [(s, .sremove)]
+  | .sremove => [(remove s, .sswap)]
+  | .sswap => if getFlag s who then [(s, .fin)] else [(setFlag s who, .sclose)]
+  | .sclose => [(closeD s who, .fin)]
 
 def step (fixed : Bool) (s : Sh) : Th → List (Sh × Th)
-  | .w0 => if s.flag then [(s, .dr (some .dereg) .fin)] else [(s, .w1)]
+  | .w0 => if s.flag then [(s, .dr none (some .dereg) .fin)] else [(s, .w1)]
   | .w1 =>
-    (if s.nchan then [(s, if fixed then .w2 else .dr (some .ok) .swap)] else []) ++
-    (if s.dchan then [(s, .dr (some .dereg) .swap)] else []) ++
-    (if s.ctxDone then [(s, .dr (some .ctx) .swap)] else [])
-  | .w2 => if s.flag then [(s, .dr (some .dereg) .swap)] else [(s, .dr (some .ok) .swap)]
-  | .dr r pc => (dstep s pc).map (fun (s', pc') => (s', .dr r pc'))
-  | .od false => [(removeO s, .od true)]
+    (if s.nchan then [(s, if fixed then .w2 else .dr none (some .ok) .swap)] else []) ++
+    (if s.dchan then [(s, .dr none (some .dereg) .swap)] else []) ++
+    (if s.ctxDone then [(s, .dr none (some .ctx) .swap)] else [])
+  | .w2 => if s.flag then [(s, .dr none (some .dereg) .swap)] else [(s, .dr none (some .ok) .swap)]
+  | .dr who r pc => (dstep s who pc).map (fun (s', pc') => (s', .dr who r pc'))
   | .nt false => [(notify s, .nt true)]
   | .cx false => [({ s with ctxDone := true }, .cx true)]
-  | .od true => []
   | .nt true => []
   | .cx true => []
 
 def sys (fixed : Bool) : Sys Sh Th := { step := step fixed }
 
 def init (others : Nat) : Sh :=
-  { flag := false, dchan := false, nchan := false, entry := true, lcounted := true, others := others,
-    ctxDone := false, inWindow := false }
+  { flag := false, dchan := false, nchan := false, entry := true, count := others + 1,
+    oflags := List.replicate others false, ctxDone := false, inWindow := false }
 
 /-- Threads as they are when they are started. -/
 def Th.initial : Th → Bool
   | .w0 => true
-  | .dr none .swap => true
-  | .od false => true
+  | .dr _ none .swap => true
   | .nt false => true
   | .cx false => true
   | _ => false
@@ -115,27 +139,30 @@ inductive Ev
   | dereg | notify | cancel | odereg
 deriving DecidableEq, Repr
 
-def Ev.thread : Ev → Th
-  | .dereg => .dr none .swap
+/-- The thread an event starts; `k` = number of `odereg` events so far (the other listeners
+deregister in creation order, each once). -/
+def Ev.thread (k : Nat) : Ev → Th
+  | .dereg => .dr none none .swap
   | .notify => .nt false
   | .cancel => .cx false
-  | .odereg => .od false
+  | .odereg => .dr (some k) none .swap
 
 /-- The results the model admits for a waiter that is at its `select` in shared state `s`. -/
 def results (fixed : Bool) (s : Sh) : List Res :=
   (step fixed s .w1).flatMap fun (s1, t1) =>
     match t1 with
-    | .dr (some r) _ => [r]
+    | .dr none (some r) _ => [r]
     | .w2 => (step fixed s1 .w2).filterMap fun (_, t2) =>
         match t2 with
-        | .dr (some r) _ => some r
+        | .dr none (some r) _ => some r
         | _ => none
     | _ => []
 
 /-- The waiter passes its flag check in the initial state, is parked before the `select`, the events
 run one after the other, then the waiter is released. -/
 def admitted (fixed : Bool) (others : Nat) (evs : List Ev) : List Res :=
-  results fixed (evs.foldl (fun s e => runToEnd fixed 4 s e.thread) (init others))
+  results fixed (evs.foldl (fun (s, k) e => (runToEnd fixed 4 s (e.thread k), if e = .odereg then k + 1 else k))
+    (init others, 0)).1
 
 open Hive.Proto
 
